@@ -81,6 +81,18 @@ fn check_body(body: &[u8], acc: &mut Acc, a: &mut Allocator) {
                     if pos2 != *n {
                         acc.violation(canon(), format!("stream decoder consumed {pos2}, reference {n}"));
                     }
+                    // short-read deviation: the body through readers that answer every read with at most 1 / 3 bytes
+                    for chunk in [1usize, 3] {
+                        let mut cr = ChunkReader::new(body, chunk);
+                        match deserialize_2026_body_from_stream(a, &mut cr, max_atom_len, strict) {
+                            Ok(n5) => {
+                                if tree::read(a, n5) != *t || cr.pos != *n {
+                                    acc.violation(canon(), format!("reader answering {chunk} byte(s) per read: different tree or consumed {} (reference {n})", cr.pos));
+                                }
+                            }
+                            Err(e) => acc.violation(canon(), format!("reader answering {chunk} byte(s) per read: rejected ({e}) although the whole-slice reader accepts")),
+                        }
+                    }
                     // the whole-blob stream entry point: same tree, and the caller's stream is left exactly
                     // after the blob (the body may be followed by further bytes in this space)
                     let mut cur4 = Cursor::new(&blob[..]);
@@ -280,6 +292,26 @@ pub fn run(ctx: &Ctx) -> Report {
                                 o => acc.violation(canon.clone(), format!("serialized_length_serde_2026 {o:?} != {}", blob.len())),
                             }
                         }
+                        // short-write deviation: a writer accepting 1 / 5 bytes per call receives the same blob;
+                        // short-read deviation: the blob decodes the same through a reader answering 1 / 2 bytes per read
+                        for chunk in [1usize, 5] {
+                            let mut cw = ChunkWriter { out: vec![], chunk };
+                            match clvmr::serde_2026::serialize_2026_to_stream(a, n, level, &mut cw) {
+                                Ok(()) if cw.out == blob => {}
+                                other => acc.violation(canon.clone(), format!("serialize_2026_to_stream into a writer accepting {chunk} byte(s) per write: {other:?}, {} bytes vs {}", cw.out.len(), blob.len())),
+                            }
+                        }
+                        for chunk in [1usize, 2] {
+                            let mut cr = ChunkReader::new(&blob, chunk);
+                            match deserialize_2026_from_stream(a, &mut cr, 1 << 20, true) {
+                                Ok(m) => {
+                                    if tree::read_ser(a, m) != ser || cr.pos != blob.len() {
+                                        acc.violation(canon.clone(), format!("reader answering {chunk} byte(s) per read: round trip differs or consumed {} of {}", cr.pos, blob.len()));
+                                    }
+                                }
+                                Err(e) => acc.violation(canon.clone(), format!("reader answering {chunk} byte(s) per read: deserialize_2026_from_stream fails: {e}")),
+                            }
+                        }
                         // two blobs back to back on one stream: each decode consumes exactly its own blob
                         {
                             let mut two = blob.clone();
@@ -468,7 +500,7 @@ pub fn run(ctx: &Ctx) -> Report {
     rep.states = rep.acc.get("tree_cases") + rep.acc.get("bodies") + rep.acc.get("token_blobs") + rep.acc.get("token_blobs_overlong");
     rep.transitions = rep.evaluations;
     rep.traces = rep.evaluations;
-    rep.rule = format!("(a) every tree of C17's spaces x sharing x levels {{0,1,u32::MAX}}: strict+lenient round trip, length probe (also with trailing bytes), two blobs back to back on one stream, reference decoder, rejection by classic/backref decoders; (b) every body in BYTES({l1}) and BYTES({l2}, 12-byte alphabet), (c) every token-level blob: {nt} atom-table configurations (0-3 groups, headers +-1,+-2,0,2^20(+1),+-2^55, counts 0..3, atom bytes over {{00,01,80}}, wrong declared group count) x every instruction sequence of length <= {kmax} over {INSTRS:?} x declared count {{k,k+1,k-1}}, plus every single-varint overlong deviation (1 or 2 extra bytes) for sequences <= {okmax}; each body under strict x max_atom_len {{0,1,2,3,2^20}} through deserialize_2026, deserialize_2026_from_stream (stream position afterwards), deserialize_2026_body_from_stream and serialized_length_serde_2026 against a reference decoder written from docs/serde-2026.md (accept/reject, tree, consumed == probe). Non-trivial = tree cases + (body, parameters) combinations that decode.");
+    rep.rule = format!("(a) every tree of C17's spaces x sharing x levels {{0,1,u32::MAX}}: strict+lenient round trip, length probe (also with trailing bytes), two blobs back to back on one stream, short-write writers (1/5 bytes per call) and short-read readers (1/2/3 bytes per call), reference decoder, rejection by classic/backref decoders; (b) every body in BYTES({l1}) and BYTES({l2}, 12-byte alphabet), (c) every token-level blob: {nt} atom-table configurations (0-3 groups, headers +-1,+-2,0,2^20(+1),+-2^55, counts 0..3, atom bytes over {{00,01,80}}, wrong declared group count) x every instruction sequence of length <= {kmax} over {INSTRS:?} x declared count {{k,k+1,k-1}}, plus every single-varint overlong deviation (1 or 2 extra bytes) for sequences <= {okmax}; each body under strict x max_atom_len {{0,1,2,3,2^20}} through deserialize_2026, deserialize_2026_from_stream (stream position afterwards), deserialize_2026_body_from_stream and serialized_length_serde_2026 against a reference decoder written from docs/serde-2026.md (accept/reject, tree, consumed == probe). Non-trivial = tree cases + (body, parameters) combinations that decode.");
     rep.assumptions.push("reference 2026 decoder in refserde.rs; where docs/serde-2026.md is silent (count==0 rejected, bound checked before count is read) the reference mirrors the implementation".into());
     rep.note("max_atom_len_usize_max", json!("a declared atom length up to max_atom_len is pre-allocated before reading (buf.resize); with max_atom_len=usize::MAX that is caller-selected unbounded allocation and is explored only in the subprocess tier (see DESIGN.md C20)"));
     rep
